@@ -1,0 +1,99 @@
+//go:build verif
+// +build verif
+
+package onet
+
+import "time"
+
+// Read-only accessors and test knobs for the verification harness
+// (/verif/harness). Compiled only with the "verif" build tag.
+
+// VerifOverlay returns the server's overlay.
+func (c *Server) VerifOverlay() *Overlay { return c.overlay }
+
+// VerifPending returns the parked protocol messages.
+func (o *Overlay) VerifPending() []*ProtocolMsg {
+	o.pendingMsgLock.Lock()
+	defer o.pendingMsgLock.Unlock()
+	out := make([]*ProtocolMsg, 0, len(o.pendingMsg))
+	for _, p := range o.pendingMsg {
+		out = append(out, p.ProtocolMsg)
+	}
+	return out
+}
+
+// VerifTreeState returns 0 if the tree id is unknown, 1 if it is registered
+// (requested, not received) and 2 if the tree is present.
+func (o *Overlay) VerifTreeState(id TreeID) int {
+	ts := o.treeStorage
+	ts.Lock()
+	defer ts.Unlock()
+	t, ok := ts.trees[id]
+	switch {
+	case !ok:
+		return 0
+	case t == nil:
+		return 1
+	default:
+		return 2
+	}
+}
+
+// VerifRemovalPending tells whether a removal of the tree is scheduled.
+func (o *Overlay) VerifRemovalPending(id TreeID) bool {
+	ts := o.treeStorage
+	ts.Lock()
+	defer ts.Unlock()
+	_, ok := ts.cancellations[id]
+	return ok
+}
+
+// VerifSetTreeTimeout shortens the grace period of the tree store.
+func (o *Overlay) VerifSetTreeTimeout(d time.Duration) {
+	ts := o.treeStorage
+	ts.Lock()
+	defer ts.Unlock()
+	ts.timeout = d
+}
+
+// VerifInstances returns the tokens of the live instances and of the
+// instances marked done.
+func (o *Overlay) VerifInstances() (active []TokenID, done []TokenID) {
+	o.instancesLock.Lock()
+	defer o.instancesLock.Unlock()
+	for id := range o.instances {
+		active = append(active, id)
+	}
+	for id, d := range o.instancesInfo {
+		if d {
+			done = append(done, id)
+		}
+	}
+	return
+}
+
+// VerifLocksFree reports, per overlay mutex, whether it could be acquired right now.
+func (o *Overlay) VerifLocksFree() map[string]bool {
+	res := map[string]bool{}
+	try := func(name string, tl func() bool, ul func()) {
+		if tl() {
+			ul()
+			res[name] = true
+		} else {
+			res[name] = false
+		}
+	}
+	try("instancesLock", o.instancesLock.TryLock, o.instancesLock.Unlock)
+	try("pendingTreeLock", o.pendingTreeLock.TryLock, o.pendingTreeLock.Unlock)
+	try("pendingMsgLock", o.pendingMsgLock.TryLock, o.pendingMsgLock.Unlock)
+	try("transmitMux", o.transmitMux.TryLock, o.transmitMux.Unlock)
+	try("pendingConfigsMut", o.pendingConfigsMut.TryLock, o.pendingConfigsMut.Unlock)
+	try("treeStorage", o.treeStorage.TryLock, o.treeStorage.Unlock)
+	return res
+}
+
+// VerifTreeOf returns the tree the instance would get from Tree() without panicking
+// (nil if the tree store no longer holds it).
+func (n *TreeNodeInstance) VerifTreeOf() *Tree {
+	return n.overlay.treeStorage.Get(n.token.TreeID)
+}
